@@ -92,11 +92,29 @@ func newRig() (*rig, error) {
 // decode injects PTY bytes into the live Vaxis and returns the public events.
 func (r *rig) decode(b []byte, gap bool) ([]vaxis.Event, bool) {
 	r.vx.TTY.Inject(b)
+	var out []vaxis.Event
 	if gap {
-		time.Sleep(70 * time.Millisecond)
+		// the bytes end with a lone ESC: its event arrives when the
+		// parser's timer fires. Wait for it (not for a fixed time) before
+		// anything else is written behind it
+		patience := time.After(3 * time.Second)
+	await:
+		for {
+			select {
+			case ev := <-r.vx.Vx.Events():
+				switch ev.(type) {
+				case vaxis.Key, vaxis.Mouse, vaxis.PasteStartEvent, vaxis.PasteEndEvent, vaxis.FocusIn, vaxis.FocusOut:
+					out = append(out, ev)
+				}
+				if k, ok := ev.(vaxis.Key); ok && k.Keycode == vaxis.KeyEsc {
+					break await
+				}
+			case <-patience:
+				break await
+			}
+		}
 	}
 	r.vx.TTY.InjectString(fmt.Sprintf("\x1b[%du", sentinel))
-	var out []vaxis.Event
 	deadline := time.NewTimer(10 * time.Second)
 	defer deadline.Stop()
 	for {
